@@ -11,6 +11,7 @@ import (
 	"verif/internal/fw"
 	"verif/internal/genrun"
 	"verif/internal/gram"
+	"verif/internal/reflalr"
 )
 
 // pinput is one token-level input with its rendering.
@@ -165,4 +166,25 @@ func tableOpts(v int) []string {
 		o = append(o, "minimizeDFA = true")
 	}
 	return o
+}
+
+
+// withHookMonitor runs f with the process-wide LALR invariant monitor installed: every
+// lalr.Compile performed inside (through compiler.Compile) is judged by the C03-C06
+// table-level monitors as well (reference LALR(1) cells for small grammars, bisimulation
+// across minimize, encoding comparison across Optimize). Findings become violations of
+// the running check under hook/<property>/<signature>.
+func withHookMonitor(c *fw.Ctx, f func()) {
+	m := reflalr.InstallMonitor(300)
+	defer func() {
+		m.Uninstall()
+		c.Count("hook_compiles_monitored", int64(m.Compiles))
+		c.Count("hook_reference_lalr1_compared", int64(m.RefChecked))
+		c.Count("hook_minimize_bisimulations", int64(m.Minimized))
+		c.Count("hook_optimize_encodings_compared", int64(m.Optimized))
+		for _, fd := range m.Findings {
+			c.Violate("hook/"+fd.Property+"/"+fd.Sig, "LALR invariant monitor ("+fd.Property+") on a grammar compiled by this check:\n"+fd.Detail, map[string]string{"lalr_grammar.json": fd.Grammar})
+		}
+	}()
+	f()
 }
